@@ -95,6 +95,25 @@ func c15Spec(n int) world.Spec {
 	return spec
 }
 
+// c15Seed adds, for each of the n sessions, three stored requests: login completed with POST delivery, completed with Redirect
+// delivery, and not completed. With sharedIDs every session's service provider happened to choose the same AuthnRequest ID.
+func c15Seed(spec *world.Spec, n int, sharedIDs bool) {
+	for i := 0; i < n; i++ {
+		tk := c15Tok(i)
+		sp, u := spec.SPs[i], spec.Users[i]
+		rid := func(kind string) string {
+			if sharedIDs {
+				return "_id-chosen-by-several-providers"
+			}
+			return "_seed" + kind + tk
+		}
+		spec.Requests = append(spec.Requests,
+			world.RequestSpec{ID: "seed-done-post-" + tk, AppID: sp.AppID, RelayState: "rs-dp-" + tk, ACS: sp.ACS[0].Location, Binding: sp.ACS[0].Binding, AuthRequestID: rid("dp"), UserID: u.UserID, Done: true},
+			world.RequestSpec{ID: "seed-done-redirect-" + tk, AppID: sp.AppID, RelayState: "rs-dr-" + tk, ACS: sp.ACS[1].Location, Binding: sp.ACS[1].Binding, AuthRequestID: rid("dr"), UserID: u.UserID, Done: true},
+			world.RequestSpec{ID: "seed-pending-" + tk, AppID: sp.AppID, RelayState: "rs-p-" + tk, ACS: sp.ACS[0].Location, Binding: sp.ACS[0].Binding, AuthRequestID: rid("p"), UserID: u.UserID})
+	}
+}
+
 var reTok = regexp.MustCompile(`zz(\d+)zz`)
 
 type c15Collect struct {
@@ -132,6 +151,11 @@ func (cc *c15Collect) id(id, where string) {
 
 // c15Do returns the function that sends one request of session i and applies the isolation oracle to the reply.
 func c15Do(w *world.World, cc *c15Collect, i int, host string, yield int) func(op string, hr obs.HTTPReq) (obs.Reply, time.Time, time.Time) {
+	return c15DoOpt(w, cc, i, host, yield, nil)
+}
+
+// c15DoOpt: mk, when set, supplies the context and write hook of each request (the scheduled runs).
+func c15DoOpt(w *world.World, cc *c15Collect, i int, host string, yield int, mk func() obs.Opt) func(op string, hr obs.HTTPReq) (obs.Reply, time.Time, time.Time) {
 	return func(op string, hr obs.HTTPReq) (obs.Reply, time.Time, time.Time) {
 		hr.Host = host
 		for k := 0; k < yield; k++ {
@@ -141,7 +165,11 @@ func c15Do(w *world.World, cc *c15Collect, i int, host string, yield int) func(o
 			atomic.AddInt64(&cc.overlaps, 1)
 		}
 		t0 := time.Now()
-		rep := obs.Do(w.Handler, hr)
+		var o obs.Opt
+		if mk != nil {
+			o = mk()
+		}
+		rep := obs.DoOpt(w.Handler, hr, o)
 		t1 := time.Now()
 		atomic.AddInt64(&cc.inflight, -1)
 		atomic.AddInt64(&cc.finished, 1)
@@ -168,12 +196,16 @@ func c15Do(w *world.World, cc *c15Collect, i int, host string, yield int) func(o
 
 // c15Client runs the operations of client i.
 func c15Client(w *world.World, spec world.Spec, i int, ops []string, yield int, cc *c15Collect) {
+	c15ClientOpt(w, spec, i, ops, yield, cc, nil)
+}
+
+func c15ClientOpt(w *world.World, spec world.Spec, i int, ops []string, yield int, cc *c15Collect, mk func() obs.Opt) {
 	tk := c15Tok(i)
 	host := "tenant" + tk + ".idp.example"
 	sp := spec.SPs[i]
 	user := spec.Users[i]
 	entity := spec.IdP.EntityID(host)
-	do := c15Do(w, cc, i, host, yield)
+	do := c15DoOpt(w, cc, i, host, yield, mk)
 	wr := func(n *xt.Node) []byte { return xt.Write(n, plainStyle.W) }
 	for k, op := range ops {
 		reqID := fmt.Sprintf("_req%s-%d", tk, k)
@@ -236,6 +268,39 @@ func c15Client(w *world.World, spec world.Spec, i int, ops []string, yield int, 
 				cc.add(v)
 			}
 			_ = d
+		case "cb-done-post", "cb-done-redirect", "cb-pending":
+			// callbacks on requests seeded for this session (see c15Seed)
+			id := "seed-" + strings.TrimPrefix(op, "cb-") + "-" + tk
+			stored := w.Store.Request(id)
+			if stored == nil {
+				panic("harness: no seeded request " + id)
+			}
+			rep2, t0, t1 := do(op, callbackReq(spec.IdP, id))
+			if op == "cb-pending" {
+				d := obs.Decode(rep2)
+				if r := obs.ReadResponse(obs.FindResponse(d.Root())); r != nil && r.Success() {
+					cc.add(ev.V("C15/success-for-pending-request", "client %d: callback on its own request whose login is not completed was answered with Success (InResponseTo %q)", i, r.InResponseTo))
+				}
+				for _, text := range replyTexts(rep2, d) {
+					if strings.Contains(text, "user"+tk) || strings.Contains(text, "mail"+tk) {
+						cc.add(ev.V("C15/user-data-for-pending-request", "client %d: reply to the callback on a pending request carries the user's data", i))
+						break
+					}
+				}
+				continue
+			}
+			s2 := spec
+			s2.Apps = map[string]string{sp.AppID: sp.EntityID}
+			vs, _ := c03Compare(s2, host, stored.S, user, rep2, t0, t1)
+			for _, v := range vs {
+				if v.Key == "C03/id-reused" {
+					v.Key = "C15/duplicate-id"
+				} else {
+					v.Key = "C15/callback-" + strings.TrimPrefix(v.Key, "C03/")
+				}
+				v.What = fmt.Sprintf("client %d: %s", i, v.What)
+				cc.add(v)
+			}
 		case "logout":
 			l := spsim.NewLogoutReq(reqID, sp.EntityID, user.Username)
 			l.IssueInstant = spsim.Instant(time.Now().Add(-10*time.Second), 0)
